@@ -70,7 +70,8 @@ def rule_lock_read(ctx, facts, prefix="C02-R1"):
                     region = cfg.reach_t(r, err_arm)
                     ctx.check(bb not in region, prefix, "parse-error-some", "a lock that fails to parse yields None", r.where(sb))
         else:
-            ctx.bad(prefix, "odd-return", "unexpected return shape %s" % rv_str(rv), r.where(bb))
+            ctx.bad(prefix, "odd-return", "the lock reader returns a value that is not built here as `Some(<next_reference_id of the parsed Cache>)` or `None` "
+                    "(a second source for the start value bypasses the YAML parse, so an unparsable lock may no longer be ignored): %s" % rv_str(rv), r.where(bb))
     ctx.check(somes == 1, prefix, "some-count", "exactly one `Some` return in the lock reader (%d)" % somes, r.where())
     # "no usable lock" (absent, unparsable) and "the lock could not be read" are different things: after an I/O
     # error on an existing lock the scan fallback computes max+1 and re-issues the IDs of deleted statements
